@@ -46,6 +46,12 @@ pub fn reference(input: &[u8]) -> Vec<Item> {
 /// Drives the real codec the way a consumer does: `decode` until `None`, then `decode_eof`
 /// until `None`. Returns the items, or a description if it fails to terminate.
 pub fn real(input: &[u8]) -> Result<Vec<Item>, String> {
+    real_with(input, usize::MAX)
+}
+
+/// `decode` is called at most `max_decodes` times (fewer if it says `None` earlier); the rest of
+/// the buffer - complete lines included - is then left to `decode_eof` alone.
+pub fn real_with(input: &[u8], max_decodes: usize) -> Result<Vec<Item>, String> {
     let mut codec = LinesCodec::default();
     let mut buf = BytesMut::from(input);
     let mut out = vec![];
@@ -68,7 +74,7 @@ pub fn real(input: &[u8]) -> Result<Vec<Item>, String> {
         }
     };
     let mut n = 0;
-    while push(codec.decode(&mut buf), &mut out) {
+    while n < max_decodes && push(codec.decode(&mut buf), &mut out) {
         n += 1;
         if n > fuel {
             return Err("decode did not reach None".into());
@@ -158,6 +164,18 @@ fn items_json(v: &[Item]) -> Value {
 
 fn check_decode(input: &[u8]) -> Option<Violation> {
     let exp = reference(input);
+    // end of stream reached with complete lines still in the buffer: `decode_eof` alone (after 0,
+    // 1 or 2 `decode` calls) must produce the same items
+    for k in 0..=2usize {
+        let got = mcutil::quiet_catch(|| real_with(input, k));
+        if !matches!(&got, Ok(Ok(g)) if *g == exp) {
+            return Some(Violation {
+                signature: "decode_eof:differs-when-complete-lines-are-left-to-it".into(),
+                summary: format!("input {:?}: {k} decode call(s), then decode_eof until None gives {:?}, reference {:?}", String::from_utf8_lossy(input), got.map_err(|_| "panic"), exp),
+                replay: json!({"kind": "decode", "input": input, "decodes_before_eof": k}),
+            });
+        }
+    }
     let got = mcutil::quiet_catch(|| real(input));
     let (sig, detail) = match got {
         Ok(Ok(g)) if g == exp => return None,
